@@ -2,4 +2,4 @@
 Require Extraction.
 Require Import ExtrOcamlBasic.
 From Verif Require Import Lib.Base Lib.Utf8 Lib.Regex Model.Scanner Model.Splitters.
-Extraction "model.ml" records find.
+Extraction "model.ml" records records_sched find.
